@@ -10,7 +10,7 @@
 use std::cell::UnsafeCell;
 pub use std::sync::atomic::Ordering;
 
-use crate::verif_rt::{any_u64, any_usize, assume};
+use crate::verif_rt::{any_u64, any_usize_in, assume};
 
 const fn parse_k() -> usize {
     match option_env!("PROMETHEUS_VERIF_K") {
@@ -46,9 +46,7 @@ unsafe impl Send for Cell {}
 fn sched_point_inner() {
     unsafe {
         if MODE == 2 {
-            let r = any_usize();
-            assume(r >= ROUND && r < K);
-            ROUND = r;
+            ROUND = any_usize_in(ROUND, K);
         }
     }
 }
